@@ -142,6 +142,7 @@ func randSingle(a *acc, maxLen int) {
 		e := randEq(rnd)
 		runRuns(a, src, e.f, "same: "+e.name, func(s []int) [][]int { return xslices.Runs(s, e.f) })
 		runRunsPartial(a, src, e.f, "same: "+e.name, vkit.Pick(rnd, takePolicies))
+		runsPosition(a, src, e.f, "same: "+e.name)
 	case 8:
 		l := rnd.Range(0, 2*n+4)
 		if l > 64 {
@@ -159,6 +160,7 @@ func randSingle(a *acc, maxLen int) {
 			}
 		}
 		runPeek(a, src, ops, b.String())
+		peekPosition(a, src, ops, b.String())
 	case 9, 10:
 		// cut into parts, many of them empty
 		k := rnd.Range(0, 12)
@@ -181,6 +183,7 @@ func randSingle(a *acc, maxLen int) {
 			lo = hi
 		}
 		runMulti(a, parts, func(ps [][]int) []int { return xslices.Join(ps...) })
+		multiPosition(a, parts)
 		if len(parts) <= 6 && rnd.Bool(0.25) {
 			runNestedJoins(a, parts)
 		}
